@@ -967,10 +967,21 @@ func (fr *Frame) enterLoop(li *loopInfo) {
 			case ssa.CallInstruction:
 				if cl, ok := s.(*ssa.Call); ok && fr.top && fr.contract != nil {
 					for _, ac := range fr.contract.AtCalls {
-						if strings.HasSuffix(calleeName(cl.Common()), ac.Callee) && fr.callOrdinal(cl, ac.Callee) == ac.N {
+						if !ac.AtReturn && !ac.Hint && strings.HasSuffix(calleeName(cl.Common()), ac.Callee) && fr.callOrdinal(cl, ac.Callee) == ac.N {
+							base := ac.LHS
+							if base != nil && base.Op == "index" {
+								base = base.Args[0]
+							}
 							for _, g := range fr.contract.GhostVars {
-								if g.Name == ac.Var {
+								if base != nil && base.Op == "ident" && g.Name == base.Name {
 									cells[fr.ghostCell(g.Name)] = nil
+								}
+							}
+							if base != nil && base.Op == "sel" {
+								for _, g := range fr.x.e.cf.Ghost {
+									if g.Field == base.Name {
+										mods.comps["F."+g.Type+"."+g.Field] = true
+									}
 								}
 							}
 						}
@@ -1291,6 +1302,10 @@ func (fr *Frame) instr(in ssa.Instruction) {
 		var vals []Term
 		for _, r := range s.Results {
 			vals = append(vals, fr.val(r))
+		}
+		if fr.top {
+			fr.cur = fr.cur.clone()
+			fr.ghostAtReturn(vals)
 		}
 		fr.rets = append(fr.rets, retInfo{fr.cur, vals})
 		fr.checkConstructed(s)
@@ -2125,7 +2140,7 @@ func (fr *Frame) callOrdinal(call *ssa.Call, suffix string) int {
 func (fr *Frame) ghostAtCall(call *ssa.Call, res []Term) {
 	name := calleeName(call.Common())
 	for _, ac := range fr.contract.AtCalls {
-		if ac.Hint || !strings.HasSuffix(name, ac.Callee) || fr.callOrdinal(call, ac.Callee) != ac.N {
+		if ac.Hint || ac.AtReturn || !strings.HasSuffix(name, ac.Callee) || fr.callOrdinal(call, ac.Callee) != ac.N {
 			continue
 		}
 		vars := map[string]sval{}
@@ -2149,7 +2164,88 @@ func (fr *Frame) ghostAtCall(call *ssa.Call, res []Term) {
 			se.bound[k] = true
 		}
 		v := se.eval(ac.Expr)
-		fr.cur.set(fr.ghostCell(ac.Var), fr.c().define("ghost."+ac.Var, compSorts[fr.ghostCell(ac.Var)], v.t))
+		fr.assignGhost(ac, se, v)
+	}
+}
+
+// assignGhost: ghost variable, ghost field (x.f) or ghost array element (x.f[i] / v[i])
+func (fr *Frame) assignGhost(ac AtCall, se *specEnv, v sval) {
+	c := fr.c()
+	lhs := ac.LHS
+	if lhs == nil || lhs.Op == "ident" {
+		name := ac.Var
+		if lhs != nil {
+			name = lhs.Name
+		}
+		cn := fr.ghostCell(name)
+		if _, ok := compSorts[cn]; !ok {
+			specFail("unknown ghost variable %s (contract line %d)", name, ac.Line)
+		}
+		fr.cur.set(cn, c.define("ghost."+name, compSorts[cn], v.t))
+		return
+	}
+	var idx *Spec
+	target := lhs
+	if lhs.Op == "index" {
+		idx = lhs.Args[1]
+		target = lhs.Args[0]
+	}
+	if target.Op == "ident" && idx != nil {
+		cn := fr.ghostCell(target.Name)
+		i := se.eval(idx)
+		fr.cur.set(cn, c.define("ghost."+target.Name, compSorts[cn], app("store", fr.cur.get(cn), i.t, v.t)))
+		return
+	}
+	t := se.eval(target)
+	if t.addr == nil || t.addr.kind != aField {
+		specFail("ghost assignment target %s is not a ghost field (contract line %d)", lhs, ac.Line)
+	}
+	if !fr.isGhostComp(t.addr.comp) {
+		specFail("ghost assignment to real state %s (contract line %d)", lhs, ac.Line)
+	}
+	arr := fr.cur.get(t.addr.comp)
+	nv := v.t
+	if idx != nil {
+		i := se.eval(idx)
+		nv = app("store", app("select", arr, t.addr.ref), i.t, v.t)
+	}
+	fr.cur.set(t.addr.comp, c.define("ghost", compSorts[t.addr.comp], app("store", arr, t.addr.ref, nv)))
+}
+
+func (fr *Frame) isGhostComp(comp string) bool {
+	for _, g := range fr.x.e.cf.Ghost {
+		if comp == "F."+g.Type+"."+g.Field {
+			return true
+		}
+	}
+	return false
+}
+
+// ghostAtReturn: ghost updates anchored at every return of the function under verification
+func (fr *Frame) ghostAtReturn(vals []Term) {
+	if fr.contract == nil {
+		return
+	}
+	for _, ac := range fr.contract.AtCalls {
+		if !ac.AtReturn {
+			continue
+		}
+		vars := map[string]sval{}
+		sig := fr.fn.Signature
+		for i, r := range vals {
+			t := sig.Results().At(i).Type()
+			sv := sval{t: r, typ: t, sort: sortOf(t)}
+			vars[fmt.Sprintf("r%d", i)] = sv
+			if n := sig.Results().At(i).Name(); n != "" && n != "_" {
+				vars[n] = sv
+			}
+		}
+		if len(vals) == 1 {
+			vars["result"] = vars["r0"]
+		}
+		se := fr.specEnvFor(fr.cur, fr.entry, fr.mergeVars(vars), false)
+		v := se.eval(ac.Expr)
+		fr.assignGhost(ac, se, v)
 	}
 }
 
@@ -2165,6 +2261,9 @@ func (fr *Frame) initGhosts() {
 	}
 	// every AtCall must resolve (anchor check)
 	for _, ac := range fr.contract.AtCalls {
+		if ac.AtReturn {
+			continue
+		}
 		found := 0
 		for _, b := range fr.fn.Blocks {
 			for _, in := range b.Instrs {
@@ -2268,7 +2367,7 @@ func (fr *Frame) checkLoopFrame(comp string, reg, off Term, w int, in ssa.Instru
 func (fr *Frame) hintsAtCall(call *ssa.Call) {
 	name := calleeName(call.Common())
 	for _, ac := range fr.contract.AtCalls {
-		if !ac.Hint || !strings.HasSuffix(name, ac.Callee) || fr.callOrdinal(call, ac.Callee) != ac.N {
+		if !ac.Hint || ac.AtReturn || !strings.HasSuffix(name, ac.Callee) || fr.callOrdinal(call, ac.Callee) != ac.N {
 			continue
 		}
 		cl := &Clause{Kind: "hint", Props: ac.Props, Line: ac.Line}
